@@ -320,3 +320,80 @@ def c15(tier, seed):
     ev.write()
     print(f'C15 {tier}: {tot["leaves"]} leaves, {tot["queries"]} queries, rc={rc}', flush=True)
     return rc
+
+
+# ----------------------------------------------------------------------------- C05 (b): Source::read contract
+def task_read_contract(pl):
+    prog = pipeline.load_program(pl['mir'])
+    N = pl['N']
+    ex = Exec(prog, N, debug_assertions=not pl['release'])
+    off = z3.BitVec('offset', U)
+    kind, K = pl['kind'], pl['K']
+    name = f'corpus::rt::read_{kind}_' + ('u8' if K == 1 else f'a{K}')
+    if kind == 'str':
+        ex.base.append(lexcheck.as_b(lexcheck.valid_utf8(ex)))
+    failures = []
+    stats = {'leaves': 0, 'some': 0, 'none': 0}
+    samples = []
+
+    def fail(what, cond=None, model=None):
+        if len(failures) < 8:
+            failures.append({'what': what, 'model': model or ex.model_for(cond if cond is not None else True)})
+
+    def body(ex):
+        r = ex.call_root(name, [ex.source(), off])
+        # contract: Some iff offset + K <= len without overflow
+        e = off + bvv(K, U)
+        fits = simp(z3.And(z3.UGE(e, off), z3.ULE(e, ex.len)))
+        if r.variant == 1:
+            if ex.check(s_not(fits)):
+                fail(f'read::<{K} bytes>(offset) returned Some although offset + {K} > len (or overflows)', s_not(fits))
+            v = r.fields[0]
+            if K == 1:
+                bad = simp(as_bv(v, 8) != ex.byte_at(off))
+                if ex.check(bad):
+                    fail('read::<u8> returned a byte different from source[offset]', bad)
+            else:
+                if not isinstance(v, SrcPtr):
+                    raise EngineError('read returned ' + repr(v))
+                bad = simp(as_bv(v.off, U) != off)
+                if ex.check(bad):
+                    fail(f'read::<&[u8; {K}]> returned a chunk that does not start at offset', bad)
+            return 'some'
+        if ex.check(fits):
+            fail(f'read::<{K} bytes>(offset) returned None although offset + {K} <= len', fits)
+        return 'none'
+
+    def on_leaf(ex, leaf):
+        stats['leaves'] += 1
+        if leaf[0] == 'ok':
+            stats[leaf[1]] += 1
+            if len(samples) < 3:
+                m = ex.model_for(True)
+                samples.append({'result': leaf[1], 'len': m['len'], 'offset': m.get('vars', {}).get('offset'), 'chunk': K, 'source': kind})
+        elif leaf[0] == 'violation':
+            fail('Source::read: ' + leaf[1][1], model=leaf[1][2])
+        else:
+            fail('Source::read panicked: ' + str(leaf[1])[:100])
+
+    ex.explore(body, on_leaf)
+    return dict(key=pl['key'], failures=failures, stats=stats, engine=dict(ex.stats), fns=sorted(ex.fn_seen),
+                builtins=sorted(ex.builtins_used), samples=samples)
+
+
+def read_contract(tier, ev_cov):
+    """returns (rc, coverage dict, failures list) for the Source::read contract; merged into C05's evidence"""
+    N = 9
+    cfgs = ['tc-unsafe', 'tc-safe']
+    profiles = ['dev'] if tier == 'quick' else ['dev', 'release']
+    defs = rt_defs()
+    payloads = []
+    for prof in profiles:
+        progs, times = pipeline.build_programs('rt-C05', defs, cfgs, prof, extra=RT_EXTRA)
+        for c in cfgs:
+            for kind in ('str', 'bytes'):
+                for K in (1, 2, 4, 8):
+                    payloads.append(dict(key=f'read/{kind}/{K}/{c}/{prof}', mir=progs[c], kind=kind, K=K, N=N,
+                                         release=(prof == 'release')))
+    results = pipeline.run_tasks(task_read_contract, payloads)
+    return results
